@@ -102,6 +102,10 @@ func init() {
 		d := c.args[0].(Ptr)
 		r, _ := in.objs[in.sideKey("xmlreader", d.c)].(Iface)
 		target := c.args[1].(Iface)
+		if ds := in.decState(d.c); ds != nil {
+			// token stream: Decode = skip to the first start element, then DecodeElement
+			return in.xmlDecodeDocument(c.g, d, ds, target)
+		}
 		if r.t == nil {
 			in.unsupported("xml.Decoder over an unknown reader")
 		}
